@@ -46,7 +46,27 @@ def p_case(rng):
                 lines, nontrivial=moved, tags=["moved" if moved else "unmoved"])
 
 
+def cli_punct(rng):
+    """punctuation steps inside `treetools transform --trans ...` sequences: a step named twice runs twice, in place"""
+    import cliseq
+    ts = []
+    for _ in range(rng.randint(1, 2)):
+        t = treegen.gen_tree(rng, treegen.Cfg(n_min=2, n_max=9, p_punct=0.4, p_unary=0.3, labels=treegen.PLAIN_LABELS, none_fields=False))
+        ts.append(t)
+    pool = ["root_attach", "punctuation_verylow", "punctuation_root", "punctuation_symetrify", "collapse_unary_chains",
+            "add_topnode", "punctuation_delete"]
+    seq = [(rng.choice(pool), {}) for _ in range(rng.randint(1, 3))]
+    movers = [c for c in seq if c[0] in ("punctuation_verylow", "punctuation_root")]
+    if movers and rng.random() < 0.6:
+        seq.append(rng.choice(movers))          # the same step again after the others changed the tree
+    elif rng.random() < 0.5:
+        seq.append((rng.choice(["punctuation_verylow", "punctuation_root"]), {}))
+    return cliseq.seq_case(rng, ts, seq, "cli-sequence")[0]
+
+
 def gen(seed, tier, scale):
+    for i in range((60 if tier == "quick" else 800) * scale):
+        yield 900000 + i, cli_punct(case_rng(seed, ID, 900000 + i))
     idx = 0
     for _ in range((3000 if tier == "quick" else 60000) * scale):
         rng = case_rng(seed, ID, idx)
